@@ -386,6 +386,58 @@ def accumulation_rule(ctx, rule: str, label: str, fn, keep=None):
            where(fn, next(iter(lost.values())).node) if lost else where(fn))
 
 
+def call_site_rule(ctx, rule: str, label: str, fn, keep=None):
+    """A metric that is not shared is charged once per call site, with the shapes of that call
+    site: a contribution that an iteration of the accumulation loop reads back from a container
+    (a memo) must have been stored by the *same* iteration, or under a key that identifies the
+    call site (the fx node of the leaf triple).  A memo keyed by the layer name alone hands the
+    cost computed for the first invocation of a weight-shared layer to every later invocation
+    (other output resolution)."""
+    repo = ctx.repo
+    ps = returning(paths(repo, fn, loop_unroll=2, keep=keep))
+
+    def addends(t):
+        if t is not None and t[0] == 'bin' and t[1] == '+':
+            return addends(t[2]) + addends(t[3])
+        return [t] if t is not None else []
+    bad = None
+    n = 0
+    for p in ps:
+        stores = [(e.data[0], e.data[1]) for e in p.events if e.kind == 'setitem']
+        for e in p.calls():
+            mc = method_call(e.data[0])
+            if mc is not None and mc[1] in ('setdefault',) and mc[2]:
+                stores.append((mc[0], mc[2][0]))
+        for a in addends(p.retval):
+            reads = [x for x in subterms(a) if
+                     (x[0] == 'sub' and x[1][0] in ('dict', 'attr', 'list')) or
+                     (x[0] == 'call' and method_call(x) is not None and
+                      method_call(x)[1] == 'get' and method_call(x)[0][0] in ('dict', 'attr'))]
+            for x in reads:
+                cont, key = (x[1], x[2]) if x[0] == 'sub' else \
+                    (method_call(x)[0], method_call(x)[2][0] if method_call(x)[2] else None)
+                if key is None or not mentions(key, lambda y: y[0] == 'elem'):
+                    continue
+                if cont[0] == 'attr' and cont[1] != SELF:
+                    continue
+                if cont[0] == 'attr' and not any(c == cont for c, _ in stores):
+                    continue        # a table filled elsewhere (cost function maps, leaf lists)
+                n += 1
+                same_iter = any(c == cont and k == key for c, k in stores)
+                site_key = mentions(key, lambda y: y[0] == 'sub' and y[1][0] == 'elem' and
+                                    y[2] == ('const', 1))
+                if not same_iter and not site_key and bad is None:
+                    bad = (x, key)
+    ctx.ob(rule, f'{label} charges every call site with its own shapes', bad is None,
+           (f'{n} memo read(s), each stored by the same iteration or keyed by the call site'
+            if n else 'no contribution is read back from a memo') if bad is None else
+           f'the contribution {short(bad[0], 80)} is read from a container under the key '
+           f'{short(bad[1], 60)}, which another iteration (another call site of the same layer) '
+           f'may have stored: a weight-shared layer invoked on two resolutions is charged twice '
+           f'with the shapes of its first call site when the metric is not shared',
+           where(fn), nontrivial=bool(n))
+
+
 def tuple_elems(t: Term) -> Optional[List[Term]]:
     """Elements of a tuple-valued term: a display, or displays joined with ``+``."""
     if t[0] == 'tuple':
@@ -570,6 +622,7 @@ def r04d(ctx):
                            f'fixed layers are charged under {[(short(a, 40), v) for a, v in g]}',
                            where(fn, e.node))
     accumulation_rule(ctx, 'R04d', 'PIT._get_single_cost', fn)
+    call_site_rule(ctx, 'R04d', 'PIT._get_single_cost', fn)
     ctx.floor('R04d', 'searchable-layer cost sites', searchable, 1)
     ctx.floor('R04d', 'fixed-layer cost sites', fixed, 1)
     lookup_key_rule(ctx, 'R04d', 'PIT')
